@@ -85,3 +85,15 @@ Example c03_example_mean :
   obs_json [(4612811918334230528%N, bs "2.5")] (Some 3%N) (ORepeated 4617315517961601024%N 2%N)
   = Some (JNum (bs "2.5"), JNum (bs "6")).
 Proof. vm_compute. reflexivity. Qed.
+
+(* Parsing back: for every accepted entry, every emitted line parses (with the executable parser that is also the
+   predicate applied to the implementation's bytes) to exactly the corresponding reference document. *)
+From MV Require Import Json.Valid Json.RoundTrip Emf.DocsWf.
+Theorem c03_lines_parse_to_documents : forall c mult e now ftab,
+  floats_ok ftab mult e ->
+  Forall (fun d => parse (print d ++ [10%N]) = Some d) (emf_docs c mult e now ftab).
+Proof.
+  intros c mult e now ftab Hf. pose proof (emf_docs_wf c mult e now ftab Hf) as W.
+  eapply Forall_impl; [|exact W]. intros d Hd. apply parse_print_line. exact Hd.
+Qed.
+Print Assumptions c03_lines_parse_to_documents.
